@@ -97,6 +97,7 @@ theorem conc_pos (cfg : Cfg) : 1 ≤ conc expected cfg := by
 @[simp] theorem exp_selRecvErr : expected.selRecvErr = true := rfl
 @[simp] theorem exp_wait : expected.waitBeforeEarlyReturn = true := rfl
 @[simp] theorem exp_add : expected.addBeforeGo = true := rfl
+@[simp] theorem exp_addAfter : expected.addAfterGo = false := rfl
 @[simp] theorem exp_ops : expected.workerOps = [.pp, .write, .send, .done, .release] := rfl
 @[simp] theorem exp_wg : expected.writeGuarded = true := rfl
 @[simp] theorem exp_fw : expected.finalWait = true := rfl
@@ -160,6 +161,7 @@ theorem stepRecvErr_inv {cfg : Cfg} {s s' : State} (h : stepRecvErr expected cfg
 theorem stepAdd_inv {s s' : State} (h : stepAdd expected s = some s') :
     s.dpc = .acquired ∧ s' = { s with dpc := .added, wg := s.wg + 1 } := by
   unfold stepAdd at h
+  simp only [exp_addAfter, Bool.false_eq_true, if_false] at h
   split at h
   · rename_i hd
     injection h with h
@@ -175,6 +177,7 @@ theorem stepSpawn_inv {cfg : Cfg} {s s' : State} (h : stepSpawn expected cfg s =
       s' = { s with dpc := .loop, idx := s.idx + 1,
                     workers := s.workers ++ [mkW s.idx p c] } := by
   unfold stepSpawn at h
+  simp only [exp_addAfter, Bool.false_eq_true, if_false] at h
   split at h
   · rename_i hd
     split at h
@@ -774,7 +777,7 @@ theorem no_deadlock_inv {cfg : Cfg} {s : State} (I : Inv cfg s) (hnf : s.final =
       have hi := I.idxLt (Or.inr hd)
       refine ⟨.spawn, ?_⟩
       have : cfg.jobs[s.idx]? = some cfg.jobs[s.idx] := List.getElem?_eq_getElem hi
-      simp only [stepCore, stepSpawn, hd, this]
+      simp only [stepCore, stepSpawn, hd, this, exp_addAfter, Bool.false_eq_true, if_false, if_true]
       exact ⟨_, rfl⟩
     | errRecv e =>
       refine ⟨.earlyRet, ?_⟩
